@@ -373,3 +373,7 @@ for _f, _id in ((ts_transitions, "C10.TS-transitions"), (dtab_api, "C10.DTAB-api
     _f.rule_id = _id
 
 RULES = [ts_transitions, dtab_api, guard_sentinel, cfw_token, pdom_mismatch]
+
+# control signature of the bookkeeping effects this property depends on (rules/ctrlsig.py)
+from .ctrlsig import make_rule as _ctrl_rule  # noqa: E402
+RULES.append(_ctrl_rule("C10"))
